@@ -331,4 +331,33 @@ def run(R):
         R.fail('C14.GRD.1', inst, sc.qual, 'def sanity_check', '; '.join(probs), site(sc, sc.f.node))
     else:
         R.ok('C14.GRD.1', inst, site(sc, sc.f.node))
+    # the per-link schema test is Checker.check: the structural obligations of the matcher it relies on (shared with C11 / C12)
+    from .lvs import match_rules
+    R.ob('C14.LVS.1', 'the schema check applied to every link binds every named pattern, compares repeated patterns, evaluates edge constraints and '
+                      'undoes bindings on backtracking (obligations of Checker._match shared with C11 / C12)')
+    match_rules(R, {'MPT.3': 'C14.LVS.1', 'MPT.4': 'C14.LVS.1', 'TBL.1c': 'C14.LVS.1', 'REL.1': 'C14.LVS.1'})
+    # validated keys are remembered per validator: the key store a CascadeChecker falls back to keeps its state on the instance
+    R.ob('C14.PRV.2', 'a key store remembers validated keys per instance (no cache shared between validators with different anchors or schemas)')
+    CV = 'ndn.security.validator.cascade_validator'
+    nst = 0
+    for (m_, c_), cls in sorted(P.classes.items()):
+        if m_ != CV or not any(b == (CV, 'PublicKeyStorage') for b in P.mro(m_, c_)[1:]):
+            continue
+        nst += 1
+        inst = f'{m_}.{c_} :: per-instance state'
+        init = [f_ for f_ in cls.body if isinstance(f_, ast.FunctionDef) and f_.name == '__init__']
+        own = {t.attr for f_ in init for x in ast.walk(f_) if isinstance(x, ast.Assign) for t in x.targets
+               if isinstance(t, ast.Attribute) and isinstance(t.value, ast.Name) and t.value.id == 'self'}
+
+        def tname(s_):
+            t = s_.targets[0] if isinstance(s_, ast.Assign) else s_.target
+            return t.id if isinstance(t, ast.Name) else None
+        shared = [s_ for s_ in cls.body if isinstance(s_, (ast.Assign, ast.AnnAssign)) and getattr(s_, 'value', None) is not None
+                  and isinstance(s_.value, (ast.Dict, ast.List, ast.Set, ast.Call, ast.DictComp, ast.ListComp)) and tname(s_) not in own]
+        if shared:
+            R.fail('C14.PRV.2', inst, f'{m_}.{c_}', shared[0], f'`{ast.unparse(shared[0])[:60]}` is a class attribute: every {c_} (and so every validator built '
+                   'with the default storage) shares it, and a key validated under one trust anchor / schema is accepted under another', P.path_of(m_))
+        else:
+            R.ok('C14.PRV.2', inst, P.path_of(m_))
+    R.need(nst >= 2, f'only {nst} key storage classes found')
     R.assumptions += ['Cryptodome verifiers are sound', 'Checker.check / match semantics (C11, C12)', 'certificate retrieval behaviour is not decided']
